@@ -3,6 +3,7 @@ package vc
 // Solver portfolio: z3 5.1.0 (z3-new), z3 4.8.12, cvc5 1.0.3, raced per query.
 
 import (
+	"sync/atomic"
 	"runtime"
 	"bytes"
 	"context"
@@ -74,6 +75,8 @@ func (s *Solver) Save() {
 // slots bounds the number of solver processes running at once: the solvers' own time limits are wall-clock,
 // so an oversubscribed machine turns proofs into timeouts.
 var slots = make(chan struct{}, runtime.NumCPU())
+
+var solveSeq int64
 
 // runOne runs one solver process; its time limit (sec, plus a grace period) starts when it gets a CPU slot.
 func runOne(parent context.Context, name string, args []string, file string, sec int) (string, string) {
@@ -428,6 +431,10 @@ func (s *Solver) SolvePortfolio(vs []Variant) Answer {
 		}
 	}
 	start := time.Now()
+	// file names are unique per call: the same query can be in flight for two obligations at once, and each
+	// call removes its own files when it is done
+	uniq := atomic.AddInt64(&solveSeq, 1)
+	file = filepath.Join(s.OutDir, "q", fmt.Sprintf("%s.%d.smt2", key, uniq))
 	files := make([]string, len(vs))
 	firstFull := true
 	for i, v := range vs {
@@ -435,7 +442,7 @@ func (s *Solver) SolvePortfolio(vs []Variant) Answer {
 			files[i] = file
 			firstFull = false
 		} else {
-			files[i] = filepath.Join(s.OutDir, "q", fmt.Sprintf("%s.%d.smt2", key, i))
+			files[i] = filepath.Join(s.OutDir, "q", fmt.Sprintf("%s.%d.v%d.smt2", key, uniq, i))
 		}
 		os.WriteFile(files[i], []byte(v.Query), 0o644)
 	}
